@@ -161,6 +161,8 @@ def gen_inputs(ctx):
     cfgs = configs.grid(ctx, ctx.n(40, 500), resmodels=(3, 4) if ctx.quick else (1, 2, 3, 4))
     texts = [('synthetic', runner.params_to_text(c)) for c in cfgs]
     texts += [('example:' + n, t) for n, t in configs.example_texts(slow=not ctx.quick)]
+    if ctx.quick:   # one district-heating run with peaking fuel demand (4 s)
+        texts.append(('example:example12_DH.txt', (fw.REPO / 'tests' / 'examples' / 'example12_DH.txt').read_text()))
     return texts
 
 
@@ -181,6 +183,15 @@ def run_part(ctx, texts):
             ctx.count('whole-runs', rejected={'non-finite levelized cost (degenerate plant)': 1})
             continue
         terms.append(term(d, out))
+        if R.plant == 7 and R.enduse == 2 and any(d['ng']):
+            # the "other annual cost" of district heating is reported twice: as a yearly series and as its average
+            avg_series = sum(d['ng']) / len(d['ng'])
+            ctx.count('dh-peaking-fuel', evaluations=1, nontrivial_keys=[('dh-ng', R.econ)])
+            if abs(avg_series - d['avg_ng']) > 1e-9 * max(abs(avg_series), abs(d['avg_ng'])):
+                ctx.violate('property', 'dh-peaking-fuel:average-vs-series',
+                            f'district heating: reported Average Annual Peaking Fuel Cost {d["avg_ng"]} (used by the FCR levelized cost) is '
+                            f'not the average {avg_series} of the reported annual peaking fuel cost series (used by the standard and '
+                            f'BICYCLE levelized costs)', inp={'input_text': text}, observed=d['avg_ng'], expected=avg_series)
         varying = len(set(d['net'])) > 1 or len(set(d['heat'])) > 1
         owners.append((origin, text, R, out, (R.econ, R.enduse, R.plant, R.life, R.addons) if (R.life >= 2 and varying) else None))
         ctx.count('whole-runs', econ=R.econ, enduse=R.enduse, plant=R.plant, life=R.life, addons=R.addons, cls=R.cls)
